@@ -30,6 +30,8 @@ type gramResult struct {
 	linebreakAt map[int]bool
 	// semiNL[i]: symbol i is a ';' that could equally be a newline (or vice versa)
 	sepAt map[int]bool
+	// cmdNameAt[i]: symbol i is the command-name word of a simple command (the position where alias substitution applies)
+	cmdNameAt map[int]bool
 }
 
 type gramFail struct {
@@ -202,6 +204,7 @@ func (g *gram) linebreak() {
 func gramParse(ss []sym) (res gramResult) {
 	res.linebreakAt = map[int]bool{}
 	res.sepAt = map[int]bool{}
+	res.cmdNameAt = map[int]bool{}
 	g := &gram{t: ss, res: &res}
 	defer func() {
 		res.comments = g.comments
@@ -717,6 +720,7 @@ func (g *gram) simple() *ast.Cmd {
 			// after an assignment or redirection prefix the word is the command name.
 		}
 		first := n == 0
+		g.res.cmdNameAt[g.i] = true
 		g.next()
 		n++
 		if first && !isASCII(s.text) && g.isOp(g.peek(), "(") {
